@@ -26,7 +26,9 @@ for pid in ALL:
         "engine": "bsa",
         "level_claimed": {"category": "other", "text": text, "design_ref": ref},
         "level_note": NOTE,
-        "technique": tech,
+        "technique": tech + "; all rules run on the normal form of the program (new helpers/constants inlined, spelling and "
+                     "control-flow shape canonicalised - bsa/normalize.py) and value questions are answered by a term-domain abstract "
+                     "interpreter (bsa/sym.py: path-wise evaluation to linear integer forms and uninterpreted terms, no solver, nothing executed)",
     })
 m = {
  "version": 1,
@@ -38,7 +40,9 @@ m = {
  "engines": [{"name": "bsa", "path": "/verif/bsa", "serves_properties": sorted(CLAIMS),
               "kind_free_text": "repository-specific static analyser over Python ast: symbol/class table with C3 MRO, constant folder, "
                                 "statement CFG with exception edges, dominators, forward dataflow (locksets, widths, residues), "
-                                "path enumeration of the state classes, table/sibling cross-checks"}],
+                                "path enumeration of the state classes, table/sibling cross-checks; semantics-preserving normal form "
+                                "(inlining of helpers/constants introduced after the reference inventory, canonical control flow) and a "
+                                "term-domain abstract interpreter on which the value-level rules are decided"}],
  "checks": checks,
  "notes": "All verdicts are computed from /repo's current source on every run; nothing in /repo is imported or executed. "
           "exit 2 + ANALYSIS-ERROR = the analysis could not decide (vanished anchor / unknown shape), never a silent pass.",
